@@ -114,16 +114,35 @@ where
 {
     let a = values.len();
     let mut got: Vec<u64> = untracked(Vec::new);
-    if let Take::Fold = k {
-        // `Iterator::fold`: the closure receives every element
-        values.by_ref().fold((), |_, x| {
-            let v = x.val();
-            x.forget();
-            untracked(|| got.push(v));
+    if matches!(k, Take::Fold | Take::Count) {
+        // `Iterator::fold` / `Iterator::count` take the chunk iterator by value (an override of either in the crate is
+        // what runs); whatever they leave unconsumed is dropped by the iterator inside the call
+        let r = catch_unwind(AssertUnwindSafe(|| {
+            if let Take::Fold = k {
+                // the closure receives every element
+                values.fold((), |_, x| {
+                    let v = x.val();
+                    x.forget();
+                    untracked(|| got.push(v));
+                });
+            } else {
+                // the iterator's consumer discards every element itself
+                let _ = values.count();
+            }
+        }));
+        if let Err(p) = r {
+            log_taken(&got);
+            untracked(|| drop(got));
+            std::panic::resume_unwind(p);
+        }
+        return untracked(|| {
+            let mut s = format!("ret chunk {} {} {}", begin, a, 0);
+            for v in &got {
+                let _ = write!(s, " {}", v);
+            }
+            drop(got);
+            s
         });
-    } else if let Take::Count = k {
-        // `Iterator::count`: the iterator's consumer discards every element itself
-        let _ = values.by_ref().count();
     } else if let Take::Nth(j) = k {
         // one call of `Iterator::nth`: the iterator discards `j` elements itself and hands out the next
         if let Some(x) = values.nth(j) {
@@ -400,7 +419,12 @@ where
     <I as ConcurrentIter>::Item: Payload,
 {
     let nt = case.threads.len();
-    rt::begin_case(nt, iter_kind, case.clonepanic, case.droppanic);
+    let src_len = match &case.src {
+        Src::Slice(v) | Src::VecRef(v) | Src::ArrRef(v) | Src::Vec(v) | Src::Array(v) => v.len() as u64,
+        Src::Iter(e, _) | Src::IterRef(e, _) => e.len() as u64,
+        Src::Range(..) => 0,
+    };
+    rt::begin_case(nt, iter_kind, case.clonepanic, case.droppanic, src_len);
 
     let mut slots: Vec<OnceLock<I>> = (0..NSLOTS).map(|_| OnceLock::new()).collect();
     for (k, slot) in slots.iter().enumerate().take(case.iters) {
